@@ -210,6 +210,60 @@ Traverse(d, nf) == TFaces(d, [fv |-> {}, vv |-> {}, order |-> <<>>, cor |-> <<>>
 \* value index per point (-1: the point is never reported): what the position attribute of an accepted mesh looks like, point by point
 VIdx(order, np) == [p \in 1..np |-> IF \E k \in 1..Len(order) : order[k] = p - 1 THEN (CHOOSE k \in 1..Len(order) : order[k] = p - 1) - 1 ELSE -1]
 
+\* ---------------------------------------------------------------- the prediction-degree traversal (MaxPredictionDegreeTraverser, traversal method 1)
+\* Three corner stacks by priority: 0 the tip vertex is already visited, 1 it has been seen from two or more visited faces, 2 from one.  From the
+\* current face the walk continues into a neighbour whose priority is not worse than the best one pending, otherwise the neighbour is stacked; all
+\* three vertices of the start face are reported up front.  q = [fv, vv, order, cor, st, best, deg, err].
+PDPrio(d, q, c) ==
+  LET v == Vtx(d, c) IN
+  IF v = INV THEN [q |-> [q EXCEPT !.err = "ub:degree-traversal-indexes-with-an-invalid-vertex"], p |-> 0]
+  ELSE IF v \in q.vv THEN [q |-> q, p |-> 0]
+  ELSE LET dg == q.deg[v + 1] + 1 IN [q |-> [q EXCEPT !.deg[v + 1] = dg], p |-> IF dg > 1 THEN 1 ELSE 2]
+PDAdd(q, c, p) == [q EXCEPT !.st[p + 1] = Append(@, c), !.best = IF p < @ THEN p ELSE @]
+PDReport(d, q, v, c) == IF v \in q.vv THEN q ELSE [q EXCEPT !.vv = @ \cup {v}, !.order = Append(@, d.ctv[c]), !.cor = Append(@, c)]
+RECURSIVE PDPop(_, _)
+PDPop(q, i) == IF i > 2 THEN [q |-> q, c |-> INV]
+               ELSE IF q.st[i + 1] # <<>> THEN [q |-> [q EXCEPT !.st[i + 1] = Pop(@), !.best = i], c |-> q.st[i + 1][Len(q.st[i + 1])]]
+               ELSE PDPop(q, i + 1)
+RECURSIVE PDInner(_, _, _, _), PDOuter(_, _, _)
+PDInner(d, q, c, fuel) ==
+  IF q.err # "" THEN q ELSE
+  IF fuel = 0 THEN [q EXCEPT !.err = "ub:traversal-does-not-end"] ELSE
+  LET v == Vtx(d, c) IN
+  IF v = INV THEN [q EXCEPT !.err = "ub:degree-traversal-indexes-with-an-invalid-vertex"] ELSE
+  LET q1 == PDReport(d, [q EXCEPT !.fv = @ \cup {c \div 3}], v, c)
+      rc == RC(d, c)  lc == LC(d, c)
+      rv == FVis(q1, FaceOf(rc))  lv == FVis(q1, FaceOf(lc))
+      a == IF lv THEN [q |-> q1, go |-> INV]
+           ELSE LET pr == PDPrio(d, q1, lc) IN
+                IF rv /\ pr.p <= pr.q.best THEN [q |-> pr.q, go |-> lc] ELSE [q |-> PDAdd(pr.q, lc, pr.p), go |-> INV]
+  IN IF a.q.err # "" THEN a.q
+     ELSE IF a.go # INV THEN PDInner(d, a.q, a.go, fuel - 1)
+     ELSE IF rv THEN a.q
+     ELSE LET pr == PDPrio(d, a.q, rc) IN
+          IF pr.q.err # "" THEN pr.q
+          ELSE IF pr.p <= pr.q.best THEN PDInner(d, pr.q, rc, fuel - 1) ELSE PDAdd(pr.q, rc, pr.p)
+PDOuter(d, q, fuel) ==
+  IF q.err # "" THEN q ELSE
+  IF fuel = 0 THEN [q EXCEPT !.err = "ub:traversal-does-not-end"] ELSE
+  LET pp == PDPop(q, q.best) IN
+  IF pp.c = INV THEN pp.q
+  ELSE IF FVis(pp.q, FaceOf(pp.c)) THEN PDOuter(d, pp.q, fuel - 1)
+  ELSE PDOuter(d, PDInner(d, pp.q, pp.c, fuel), fuel - 1)
+PDFromCorner(d, q, c0, fuel) ==
+  IF q.err # "" \/ Len(d.vc) = 0 THEN q ELSE
+  LET nvx == Vtx(d, Nx(c0))  pvx == Vtx(d, Pv(c0))  tvx == Vtx(d, c0) IN
+  IF nvx = INV \/ pvx = INV \/ tvx = INV THEN [q EXCEPT !.err = "ub:degree-traversal-indexes-with-an-invalid-vertex"] ELSE
+  LET q1 == [q EXCEPT !.st[1] = Append(@, c0), !.best = 0]
+      q2 == PDReport(d, PDReport(d, PDReport(d, q1, nvx, Nx(c0)), pvx, Pv(c0)), tvx, c0)
+  IN PDOuter(d, q2, fuel)
+RECURSIVE PDFaces(_, _, _, _, _)
+PDFaces(d, q, f, nf, fuel) == IF f = nf THEN q ELSE PDFaces(d, PDFromCorner(d, q, 3 * f, fuel), f + 1, nf, fuel)
+TraversePD(d, nf) == PDFaces(d, [fv |-> {}, vv |-> {}, order |-> <<>>, cor |-> <<>>, st |-> <<<<>>, <<>>, <<>>>>, best |-> 0,
+                                 deg |-> [i \in 1..Len(d.vc) |-> 0], err |-> ""], 0, nf, 8 * nf + 16)
+OrderPD(r, nf) == IF r.out # "acc" THEN [trav |-> "", vidx |-> <<>>]
+                  ELSE LET t == TraversePD(r.d, nf) IN [trav |-> t.err, vidx |-> IF t.err = "" THEN VIdx(t.order, r.np) ELSE <<>>]
+
 \* ---------------------------------------------------------------- parallelogram prediction over the traversal (MeshPredictionSchemeParallelogramDecoder)
 \* Entry p (0-based, traversal order) was reported at corner cor[p].  Across the edge opposite to that corner lies a face; when its three vertices
 \* all have entries before p the prediction is next + prev - opposite, otherwise the previous entry; the wrap transform (module IntAttr: clamp the
